@@ -321,6 +321,18 @@ def signal_payload_name(prog):
     return "AutoDespawnSignalInner"
 
 
+def entity_reactors_field(prog):
+    """role: the list field of EntityReactors (its only container field; the private name may change)"""
+    try:
+        ad = prog.adt_by_name("EntityReactors")
+        fs = [f["name"] for f in ad["variants"][0]["fields"] if re.match(r"^(smallvec::SmallVec|alloc::vec::Vec|alloc::collections::vec_deque::VecDeque)<", f["ty"])]
+        if len(fs) == 1:
+            return fs[0]
+    except (AnchorLost, KeyError, IndexError):
+        pass
+    return "reactors"
+
+
 def free_fn(prog, name):
     out = [b for b in prog.bodies if b.kind == "fn" and b.raw.get("name") == name]
     if len(out) != 1:
